@@ -142,8 +142,15 @@ def tlc_must_pass(r, what):
         raise ToolError(f"TLC produced no statistics in {what}:\n{r['out'][-3000:]}")
 
 
+class Aborted(Exception):
+    """The code under test killed the harness process (abort / signal): data, not a tool error."""
+
+
 def run_harness(args, timeout=1800):
     p = subprocess.run([HARNESS] + args, capture_output=True, text=True, timeout=timeout)
+    if p.returncode < 0 or p.returncode in (134, 139):
+        raise Aborted(f"harness {args[0]} was killed from inside the code under test (rc={p.returncode}): "
+                      f"{p.stderr[-1500:]}")
     if p.returncode != 0:
         raise ToolError(f"harness {' '.join(args[:1])} failed rc={p.returncode}: {p.stderr[-3000:]}")
     return p.stdout
